@@ -22,6 +22,17 @@ import (
 var survTime = time.Second
 
 func init() {
+	// C11: a response arriving while its survey expires or is replaced never crashes the library
+	vexplore.Register("C11", func(tier string) []*vexplore.Scenario {
+		b := map[string]int{"quick": 2, "thorough": 3}[tier]
+		return []*vexplore.Scenario{
+			{Name: "surveyor-response-vs-survey-expiry", Mode: "sched", Bound: b, Reset: kit.ResetGlobals, Cfg: vsched.Config{EarlyTimers: true}, Body: SchedExpiry},
+			{Name: "surveyor-response-vs-new-survey", Mode: "sched", Bound: b, Reset: kit.ResetGlobals, Body: SchedNewSurvey},
+		}
+	})
+}
+
+func init() {
 	vexplore.Register("C07", func(tier string) []*vexplore.Scenario {
 		d, b := 5, 2
 		if tier == "thorough" {
